@@ -68,7 +68,7 @@ def tree_tie(ctx, docs, cfgs, exempt=("block_error",)):
             meta.append((c, doc, html, toks))
     outs = d.batch(reqs)
     n = 0
-    stats = {"trees": 0, "refined": 0, "with_toc": 0, "exempt": 0, "tag_hypotheses_hold": 0, "well_tagged": 0, "striptags_agrees_with_scanner": 0}
+    stats = {"trees": 0, "refined": 0, "with_toc": 0, "exempt": 0, "tag_hypotheses_hold": 0, "well_tagged": 0, "striptags_agrees_with_scanner": 0, "balance_hypotheses_hold": 0, "balanced": 0}
     from mistune.util import striptags
     for (c, doc, html, toks), got in zip(meta, outs):
         n += 1
@@ -99,6 +99,13 @@ def tree_tie(ctx, docs, cfgs, exempt=("block_error",)):
                     ctx.broken.append("StripAgrees (hypothesis of render_tagged) fails: striptags(%r) = %r, the tag scanner keeps %r" % (html[:200], striptags(html)[:120], dec(stripped)[:120]))
             else:
                 stats["striptags_agrees_with_scanner"] += 1
+        if esc and len(flags) >= 7:
+            if flags[6] == "N":
+                stats["balanced"] += 1
+            if flags[0] == "R" and flags[5] == "B":
+                stats["balance_hypotheses_hold"] += 1
+                if flags[6] != "N":
+                    ctx.broken.append("balance theorem contradicted?! refinedOk and balTreeOk hold but the model output is not balanced for %r" % doc[:120])
         if esc and flags[0] == "R" and flags[2] == "T":
             stats["tag_hypotheses_hold"] += 1
             if flags[3] != "W":
